@@ -46,6 +46,9 @@ def _random_cfg(rnd, k):
     cfg = _cfg(kind, k, hasA, allowed, hasC, check, hasS, schema, initdef, rest, expired)
     # the expired value None may also be left to the default of the argument
     cfg['expdef'] = bool(kind == 'exp' and expired == 1 and rnd.random() < 0.7)
+    # the output event of an Input fails with a ValueError of its own whenever the output becomes
+    # this value: that is an error of the simulation, not a rejected put
+    cfg['outfail'] = rnd.randint(1, k) if kind == 'input' and rnd.random() < 0.2 else 0
     return cfg
 
 
@@ -117,6 +120,13 @@ def execute(stim):
         return {'hdr': cfg, 'ev': [{'ev': 'construct', 'refused': True, 'out': 0}]}
 
     def build(circuit):
+        if cfg.get('outfail'):
+            def picky(data):
+                if _vid(data['value']) == cfg['outfail']:
+                    raise ValueError('scripted failure of an output event filter')
+                return True
+            sink = edzed.Input('sink', initdef=None)
+            kw['on_output'] = edzed.Event(sink, 'put', efilter=[edzed.not_from_undef, picky])
         if cfg['kind'] == 'input':
             blk = edzed.Input('inp', **kw)
         else:
@@ -135,8 +145,14 @@ def execute(stim):
             data = {'duration': 0} if x else {}
             try:
                 ret = edzed.ExtEvent(blk).send(VALS[v], **data)
-            except Exception:   # a validator's exception must never reach the sender of the event
+            except Exception as err:   # a validator's exception must never reach the sender of the event
                 ret = 'exc'
+                if cfg.get('outfail'):
+                    await rt.settle(1)
+                    log.append({'ev': 'put_raise', 'v': v, 'x': bool(x), 'out': oid(blk),
+                                'exc': 'circuit' if isinstance(err, edzed.EdzedCircuitError) else 'other',
+                                'cerr': circuit.error is not None})
+                    return
             await rt.settle(1)
             log.append({'ev': 'put' if isinstance(ret, bool) else 'put_badret', 'v': v, 'x': bool(x),
                         'ret': ret if isinstance(ret, bool) else False, 'out': oid(blk),
